@@ -428,19 +428,32 @@ def derived_program(arg):
     g = fu.S.L2NormSquared(X) if hasattr(X, 'shape') and X.shape != () else None
     for t in ts:
         for s in (2.0, -0.5):
-            progs = [('Translate', f.translated(t), lambda x: f(x - t)),
-                     ('ArgScale', f * s, lambda x: f(s * x)),
-                     ('LScale', s * f, lambda x: s * f(x)),
-                     ('AddConst', f + 3.0, lambda x: f(x) + 3.0),
-                     ('ArgScale(Translate)', f.translated(t) * s, lambda x: f(s * x - t)),
-                     ('Translate(ArgScale)', (f * s).translated(t), lambda x: f(s * (x - t))),
-                     ('LScale(Translate)', s * f.translated(t), lambda x: s * f(x - t)),
-                     ('ArgScale(ArgScale(Translate))', (f.translated(t) * s) * s, lambda x: f(s * s * x - t)),
-                     ('ArgScale(AddConst)', (f + 3.0) * s, lambda x: f(s * x) + 3.0)]
+            isfield = g is None
+            cons = [('Translate', lambda: f.translated(t), lambda x: f(x - t)),
+                    ('ArgScale', lambda: f * s, lambda x: f(s * x)),
+                    ('LScale', lambda: s * f, lambda x: s * f(x)),
+                    ('AddConst', lambda: f + 3.0, lambda x: f(x) + 3.0),
+                    ('ArgScale(Translate)', lambda: f.translated(t) * s, lambda x: f(s * x - t)),
+                    ('Translate(ArgScale)', lambda: (f * s).translated(t), lambda x: f(s * (x - t))),
+                    ('LScale(Translate)', lambda: s * f.translated(t), lambda x: s * f(x - t)),
+                    ('ArgScale(ArgScale(Translate))', lambda: (f.translated(t) * s) * s, lambda x: f(s * s * x - t)),
+                    ('ArgScale(AddConst)', lambda: (f + 3.0) * s, lambda x: f(s * x) + 3.0),
+                    # scalar 0 is special-cased by __mul__ / __rmul__ (constant resp. zero functional)
+                    ('ArgScale0', lambda: f * 0.0, lambda x: f(0.0 * x)),
+                    ('LScale0', lambda: 0.0 * f, lambda x: 0.0 * f(x)),
+                    ('ArgScale0(Translate)', lambda: f.translated(t) * 0.0, lambda x: f(0.0 * x - t))]
             if g is not None:
-                progs += [('Sum', f + g, lambda x: f(x) + g(x)),
-                          ('ArgScale(Sum(Translate))', (f.translated(t) + g) * s, lambda x: f(s * x - t) + g(s * x)),
-                          ('Prod(Translate)', fu.S.FunctionalProduct(f.translated(t), g), lambda x: f(x - t) * g(x))]
+                cons += [('Sum', lambda: f + g, lambda x: f(x) + g(x)),
+                         ('ArgScale(Sum(Translate))', lambda: (f.translated(t) + g) * s, lambda x: f(s * x - t) + g(s * x)),
+                         ('Prod(Translate)', lambda: fu.S.FunctionalProduct(f.translated(t), g), lambda x: f(x - t) * g(x))]
+            progs = []
+            for rule, mkD, doc in cons:
+                try:
+                    progs.append((rule, mkD(), doc))
+                except Exception as e:
+                    if not isfield:       # (functionals on the scalar field: RealNumbers has no zero(); not pursued)
+                        res['viol'].append((dict(sigd, clause='construction-raises', rule=rule, error=type(e).__name__),
+                                            {'stage': 'derived', 'recipe': idx, 'error': str(e)[:200]}))
             for rule, D, doc in progs:
                 for x in xs:
                     try:
